@@ -141,6 +141,81 @@ func loadKnown(path string) ([]KnownFinding, error) {
 	return out, sc.Err()
 }
 
+// knownKeys loads the (rule, key) pairs of the unrepaired listed findings of this property.
+func (c *Ctx) knownKeys() map[string]bool {
+	known, _ := loadKnown(filepath.Join(c.VerifDir, "known_findings.jsonl"))
+	out := map[string]bool{}
+	for _, k := range known {
+		if k.Fixed == "" && k.Property == c.Prop {
+			out[k.Rule+"\x00"+k.Key] = true
+		}
+	}
+	return out
+}
+
+func newViolations(o *Obligation, known map[string]bool) int {
+	n := 0
+	for _, v := range o.Violations {
+		if !known[v.Rule+"\x00"+v.Key] {
+			n++
+		}
+	}
+	return n
+}
+
+// HasNewViolations reports whether some obligation has a violation that is not a listed finding.
+func (c *Ctx) HasNewViolations() bool {
+	known := c.knownKeys()
+	for _, o := range c.Obls {
+		if newViolations(o, known) > 0 {
+			return true
+		}
+	}
+	return false
+}
+
+// MergeView combines the plain view (c) with the interprocedural view (o2): an obligation
+// that has unlisted violations in the plain view but none in the other view is taken from
+// the other view.  The two runs execute the same rule code, so obligations correspond by
+// position; if they do not line up, the plain view stands.
+func (c *Ctx) MergeView(c2 *Ctx) {
+	c.Extra["interprocedural_view"] = "consulted"
+	if len(c.Obls) != len(c2.Obls) {
+		c.Extra["interprocedural_view"] = "consulted, obligation lists differ: plain view kept"
+		return
+	}
+	known := c.knownKeys()
+	var taken []string
+	for i, o := range c.Obls {
+		o2 := c2.Obls[i]
+		if o.Rule != o2.Rule || o.Construct != o2.Construct {
+			continue
+		}
+		if newViolations(o, known) == 0 || newViolations(o2, known) > 0 || o2.Status == "unresolved" {
+			if os.Getenv("VCHECK_DEBUGVIEW") != "" && newViolations(o, known) > 0 {
+				for _, v := range o2.Violations {
+					fmt.Printf("  [interprocedural view] %s [%s] %s: %s\n", v.Rule, v.Key, v.Pos, v.Msg)
+				}
+			}
+			continue
+		}
+		first := ""
+		if len(o.Violations) > 0 {
+			first = o.Violations[0].Msg
+			if len(first) > 300 {
+				first = first[:300] + "…"
+			}
+		}
+		o2.Notes = append(o2.Notes, "discharged on the interprocedural view (same-package helpers inlined); on the per-function view the rule reported: "+first)
+		c.Obls[i] = o2
+		taken = append(taken, o.Rule+" "+o.Construct)
+	}
+	if len(taken) > 0 {
+		c.Extra["interprocedural_view_discharged"] = taken
+	}
+	c.Excepts = append(c.Excepts, c2.Excepts...)
+}
+
 // Finish matches violations against the known-findings file, prints the
 // interface lines, writes evidence and replay files, and returns the exit code.
 func (c *Ctx) Finish(seed int64, levelText string, assumptions []string) int {
